@@ -380,7 +380,7 @@ var scenarios = []*scenario{
 		wg = WaitGroup()
 		for t in ..nt
 			wg.Thread(mk(t, opsList[t], ob, errs))
-		r = wg.Wait(900)
+		r = wg.Wait(150)
 		if r isnt true
 			errs.Add("HANG " $ r)
 		return ob
@@ -397,7 +397,7 @@ var scenarios = []*scenario{
 			ob.Add(i)
 			ob.Size()
 			}
-		for (w = 0; done.Size() < nt and w < 900000; ++w)
+		for (w = 0; done.Size() < nt and w < 120000; ++w)
 			Thread.Sleep(1)
 		if done.Size() < nt
 			errs.Add("HANG threads did not finish")
@@ -422,7 +422,7 @@ var scenarios = []*scenario{
 		for ..100
 			if ob.Size() > 0
 				C43Check(ob[0], errs)
-		r = wg.Wait(900)
+		r = wg.Wait(150)
 		if r isnt true
 			errs.Add("HANG " $ r)
 		return ob
@@ -463,7 +463,7 @@ var scenarios = []*scenario{
 			wg.Thread(producer(t, opsList[t].Size(), q, errs))
 			wg.Thread(consumer(t, opsList[t].Size(), q, results, errs))
 			}
-		r = wg.Wait(900)
+		r = wg.Wait(150)
 		if r isnt true
 			errs.Add("HANG " $ r)
 		return Object(q, results)
@@ -495,7 +495,7 @@ var scenarios = []*scenario{
 		wg = WaitGroup()
 		for t in ..nt
 			wg.Thread(mk(t, cnt, ob, errs, inc, casWins))
-		r = wg.Wait(900)
+		r = wg.Wait(150)
 		if r isnt true
 			errs.Add("HANG " $ r)
 		return Object(ob.n, n, casWins.Size(), cnt)
@@ -541,7 +541,7 @@ var scenarios = []*scenario{
 			C43Check(getlast(), errs)
 			count++
 			}
-		r = wg.Wait(900)
+		r = wg.Wait(150)
 		if r isnt true
 			errs.Add("HANG " $ r)
 		return count
@@ -568,7 +568,7 @@ var scenarios = []*scenario{
 		wg = WaitGroup()
 		for t in ..nt
 			wg.Thread(mk(t, opsList[t], r, errs, counter))
-		x = wg.Wait(900)
+		x = wg.Wait(150)
 		if x isnt true
 			errs.Add("HANG " $ x)
 		return r
@@ -593,7 +593,7 @@ var scenarios = []*scenario{
 		wg = WaitGroup()
 		for t in ..nt
 			wg.Thread(mk(t, opsList[t], c, errs))
-		r = wg.Wait(900)
+		r = wg.Wait(150)
 		if r isnt true
 			errs.Add("HANG " $ r)
 		return c
@@ -624,7 +624,7 @@ var scenarios = []*scenario{
 		wg = WaitGroup()
 		for t in ..nt
 			wg.Thread(mk(t, opsList[t], errs))
-		r = wg.Wait(900)
+		r = wg.Wait(150)
 		if r isnt true
 			errs.Add("HANG " $ r)
 		ob = Suneido.c43shared
@@ -668,7 +668,7 @@ var scenarios = []*scenario{
 		wg = WaitGroup()
 		for t in ..nt
 			wg.Thread(mk(t, cnt, ob, errs))
-		r = wg.Wait(900)
+		r = wg.Wait(150)
 		if r isnt true
 			errs.Add("HANG " $ r)
 		return ob
@@ -710,7 +710,8 @@ func init() {
 		&scenario{name: "known-unique", known: true, src: om.src, ops: []int{15, 15, 0, 3, 6, 8, 10, 19, 11, 36}},
 		&scenario{name: "known-sort-with-block", known: true, src: om.src, ops: []int{14, 14, 0, 3, 8, 11, 17, 19, 36}},
 		&scenario{name: "known-binarysearch-with-block", known: true, src: om.src, ops: []int{23, 23, 23, 0, 4, 6, 36}},
-		&scenario{name: "known-record-pack", known: true, src: rm.src, ops: []int{10, 10, 0, 1, 2}},
+		// (only small integers are stored: a freshly built string read by the unlocked pack would add unrelated race pairs)
+		&scenario{name: "known-record-pack", known: true, src: rm.src, ops: []int{10, 10, 0, 1}},
 		&scenario{name: "known-closure-variable-assigned-after-sharing", known: true, src: `function (nt, opsList, errs)
 		{
 		// closures over a variable that the creating function (and the closures) keep
@@ -749,10 +750,42 @@ func init() {
 			if not String?(cur.nosuchmember)
 				errs.Add("FOREIGN default value")
 			}
-		r = wg.Wait(900)
+		r = wg.Wait(150)
 		if r isnt true
 			errs.Add("HANG " $ r)
 		return 0
+		}`},
+		&scenario{name: "known-closure-variable-string-concat", known: true, check: checkConcat, src: `function (nt, opsList, errs)
+		{
+		// the same defect with strings: a long concatenation result (SuConcat, shares its
+		// buffer) stored in a closure variable by one thread is extended by another thread
+		s = ""
+		append = {|x| s $= x; if s.Size() > 3000 s = "" }
+		snapshot = { s }
+		samples = Object()
+		mk = function (t, cnt, append, snapshot, samples, errs)
+			{
+			return {
+				try
+					for i in ..cnt
+						{
+						append(C43Val(t, i) $ ";")
+						u = snapshot() $ "|" $ C43Val(t, i)
+						if i % 8 is 0
+							samples.Add(u)
+						}
+				catch (e)
+					errs.Add(Display(e))
+				}
+			}
+		cnt = opsList[0].Size()
+		wg = WaitGroup()
+		for t in ..nt
+			wg.Thread(mk(t, cnt, append, snapshot, samples, errs))
+		r = wg.Wait(150)
+		if r isnt true
+			errs.Add("HANG " $ r)
+		return samples
 		}`})
 }
 
@@ -852,6 +885,39 @@ func checkQueue(c *caseCtx, res Value) {
 	c.rep.Count("queue_items_exactly_once", total)
 }
 
+var concatSample = regexp.MustCompile(`^((?:v[0-9]+:[0-9]+:[0-9]+;)*)\|(v[0-9]+:[0-9]+:[0-9]+)$`)
+var concatToken = regexp.MustCompile(`v([0-9]+):([0-9]+):([0-9]+)`)
+
+// checkConcat: every sampled string must be a sequence of complete, self-consistent
+// tokens followed by | and one token
+func checkConcat(c *caseCtx, res Value) {
+	samples, ok := res.(*SuObject)
+	if !ok {
+		c.violate("C43/scenario-result", map[string]any{"result": fmt.Sprint(res)})
+		return
+	}
+	for i := 0; i < samples.ListSize(); i++ {
+		u := AsStr(samples.ListGet(i))
+		good := concatSample.MatchString(u)
+		if good {
+			for _, m := range concatToken.FindAllStringSubmatch(u, -1) {
+				var t, n, sum int
+				fmt.Sscan(m[1], &t)
+				fmt.Sscan(m[2], &n)
+				fmt.Sscan(m[3], &sum)
+				if t*31+n != sum {
+					good = false
+				}
+			}
+		}
+		if !good {
+			c.violate("C43/torn-read/"+c.sc.name, map[string]any{"string": vk.Trunc(u, 600)})
+			return
+		}
+	}
+	c.rep.Count("concat_samples_checked", samples.ListSize())
+}
+
 func checkCounters(c *caseCtx, res Value) {
 	ob, ok := res.(*SuObject)
 	if !ok || ob.ListSize() != 4 {
@@ -931,7 +997,7 @@ func runCase(rep *vk.Report, parent *Thread, idx int) {
 		}
 	}
 	nt := 3 + r.IntN(10)
-	nops := 30 + r.IntN(170)
+	nops := 30 + r.IntN(130)
 	if vk.Thorough() {
 		nops *= 2
 	}
@@ -977,12 +1043,12 @@ func runCase(rep *vk.Report, parent *Thread, idx int) {
 	var o outcome
 	select {
 	case o = <-ch:
-	case <-time.After(20 * time.Minute):
+	case <-time.After(12 * time.Minute):
 		buf := make([]byte, 1<<20)
 		buf = buf[:runtime.Stack(buf, true)]
 		c.violate("C43/hang", map[string]any{"goroutines": vk.Trunc(string(buf), 60000)})
 		rep.Finish()
-		panic("C43: scenario did not finish within 20 minutes: " + c.key)
+		panic("C43: scenario did not finish within 12 minutes: " + c.key)
 	}
 	rep.Eval(vk.Hash64(hparts...), true)
 	rep.Count("thread_operations", nt*nops)
@@ -1062,7 +1128,7 @@ func TestVerifC43(t *testing.T) {
 		}
 	}
 	parent := NewThread(nil)
-	n := vk.N(400, 12000)
+	n := vk.N(240, 8000)
 	// cases are dealt round-robin over the shards so that every shard runs every scenario
 	for i := 0; i < n; i++ {
 		runCase(rep, parent, i*vk.NShards()+vk.Shard())
